@@ -137,6 +137,7 @@ func (w *Wallet) handleChainNotifications() {
 				birthdayStore := &walletBirthdayStore{
 					db:      w.db,
 					manager: w.Manager,
+					txStore: w.TxStore,
 				}
 				birthdayBlock, err := birthdaySanityCheck(
 					chainClient, birthdayStore,
@@ -464,6 +465,7 @@ type birthdayStore interface {
 type walletBirthdayStore struct {
 	db      walletdb.DB
 	manager *waddrmgr.Manager
+	txStore *wtxmgr.Store
 }
 
 var _ birthdayStore = (*walletBirthdayStore)(nil)
@@ -504,7 +506,18 @@ func (s *walletBirthdayStore) SetBirthdayBlock(block waddrmgr.BlockStamp) error 
 		if err != nil {
 			return err
 		}
-		return s.manager.SetSyncedTo(ns, &block)
+		err = s.manager.SetSyncedTo(ns, &block)
+		if err != nil {
+			return err
+		}
+
+		// The wallet syncs again from this block on, so transactions
+		// recorded in blocks above it must not stay confirmed there:
+		// those blocks may have been reorged out in the meantime, and
+		// the startup reorg check only starts at the synced-to block.
+		// The rescan that follows confirms them again.
+		txmgrNs := tx.ReadWriteBucket(wtxmgrNamespaceKey)
+		return s.txStore.Rollback(txmgrNs, block.Height+1)
 	})
 }
 
